@@ -623,3 +623,37 @@ Module F7qExample.
     f7q_class 100 (bodsR D) (isco (coD D)) (atom 1000 (T 4)) = false.   (* a simple ring entered from outside *)
   Proof. repeat split; reflexivity. Qed.
 End F7qExample.
+
+(** ** The defect repaired by "fix: impl_provided_for recognises explicit auto-trait impls written
+    for fn pointer types": the table of the unchanged code had no fn-pointer row.  With that
+    table the model refutes [impl_provided_for_spec] (and with it [auto_clauses_spec]): *)
+Module PreFix.
+  Definition same_ctor_b_prefix (v1 v2 : tview) : bool :=
+    match v1, v2 with
+    | VFnPtr _, VFnPtr _ => false
+    | _, _ => same_ctor_b v1 v2
+    end.
+
+  Definition impl_provided_for_prefix (D : decls) (A : N) (t : ty) : bool :=
+    existsb (fun i => match hsym (i_head i), targs (i_head i) with
+                      | Some tr, s :: _ => (tr =? A) && same_ctor_b_prefix (view t) (view s)
+                      | _, _ => false
+                      end) (d_impls D).
+
+  (* #[auto] trait Send {}  struct A {}  impl !Send for fn(A) {} *)
+  Definition A := tAdt 0 [].
+  Definition D : decls := mkDecls [mkAdt 0 0 true false [[]]] [mkTrait 1000 true false None]
+                                  [mkImpl false (atom 1000 (tFnPtr [A; tTuple []])) []].
+
+  Example impl_provided_for_prefix_refuted :
+    exists D A t, ctor_has_impl D A t /\ impl_provided_for_prefix D A t = false.
+  Proof.
+    exists D, 1000, (tFnPtr [A; tTuple []]). split; [|reflexivity].
+    apply impl_provided_for_spec. reflexivity.
+  Qed.
+
+  (* with the repaired table the goal [fn(A): Send] is refuted, as the property demands *)
+  Example fnptr_negative_impl : evalR 50 D (atom 1000 (tFnPtr [A; tTuple []])) = Some false /\
+                                evalR 50 D (atom 1000 (tFnPtr [A])) = Some true.
+  Proof. split; reflexivity. Qed.
+End PreFix.
